@@ -1173,3 +1173,75 @@ def duck_pair_versions(fn: ast.FunctionDef):
     a.body[i:i + 1] = uncast(a.body[i].body)
     b.body[i:i + 1] = uncast(b.body[i].handlers[0].body)
     return ast.fix_missing_locations(a), ast.fix_missing_locations(b)
+
+
+# ---------------------------------------------------------------------------
+# `x = None if <nothing to choose> else V; if x is not None: BODY`
+def eliminate_none_sentinel(fn: ast.FunctionDef) -> ast.FunctionDef:
+    """A local that is None exactly when there was nothing to pick, tested once right after:
+
+        x = None if C else V            x = V if C else None
+        if x is not None: BODY          if x is not None: BODY
+
+    is `if not C: x = V; BODY` / `if C: x = V; BODY` -- provided V itself is never None (a
+    subscript, a call of a constructor-like value: here a Subscript or Call), x is read nowhere
+    outside BODY and is not re-bound.  The same thing as the try / except ValueError idiom
+    around `rng.choice(len(..))`, with the emptiness test written out."""
+    changed = False
+    new = copy.deepcopy(fn)
+
+    def uses(name: str, node: ast.AST) -> int:
+        return sum(1 for n in ast.walk(node) if isinstance(n, ast.Name) and n.id == name)
+    total: Dict[str, int] = {}
+    # occurrences inside a comprehension that binds the same name are another variable
+    own: Set[int] = set()
+    for c in ast.walk(new):
+        if isinstance(c, (ast.ListComp, ast.SetComp, ast.GeneratorExp, ast.DictComp)):
+            bound = set()
+            for g in c.generators:
+                bound |= _targets(g.target)
+            for n in ast.walk(c):
+                if isinstance(n, ast.Name) and n.id in bound:
+                    own.add(id(n))
+    for n in ast.walk(new):
+        if isinstance(n, ast.Name) and id(n) not in own:
+            total[n.id] = total.get(n.id, 0) + 1
+    for parent in ast.walk(new):
+        for field in ('body', 'orelse'):
+            blk = getattr(parent, field, None)
+            if not (isinstance(blk, list) and blk and isinstance(blk[0], ast.stmt)):
+                continue
+            i = 0
+            while i + 1 < len(blk):
+                a, b = blk[i], blk[i + 1]
+                ok = isinstance(a, ast.Assign) and len(a.targets) == 1 and \
+                    isinstance(a.targets[0], ast.Name) and isinstance(a.value, ast.IfExp) and \
+                    isinstance(b, ast.If) and not b.orelse
+                if ok:
+                    x = a.targets[0].id
+                    none_first = isinstance(a.value.body, ast.Constant) and \
+                        a.value.body.value is None
+                    none_last = isinstance(a.value.orelse, ast.Constant) and \
+                        a.value.orelse.value is None
+                    v = a.value.orelse if none_first else a.value.body
+                    t = b.test
+                    is_test = isinstance(t, ast.Compare) and len(t.ops) == 1 and \
+                        isinstance(t.ops[0], ast.IsNot) and isinstance(t.left, ast.Name) and \
+                        t.left.id == x and isinstance(t.comparators[0], ast.Constant) and \
+                        t.comparators[0].value is None
+                    inside = 1 + uses(x, b)          # the store + every use in the If
+                    ok = (none_first != none_last) and is_test and \
+                        isinstance(v, (ast.Subscript, ast.Call)) and \
+                        total.get(x, 0) == inside and x not in _names(a.value)
+                    if ok:
+                        cond = ast.UnaryOp(ast.Not(), a.value.test) if none_first \
+                            else a.value.test
+                        setx = ast.copy_location(
+                            ast.Assign([ast.Name(x, ast.Store())], v), a)
+                        blk[i:i + 2] = [ast.copy_location(
+                            ast.If(cond, [setx] + b.body, []), b)]
+                        ast.fix_missing_locations(blk[i])
+                        changed = True
+                        continue
+                i += 1
+    return new if changed else fn
